@@ -42,6 +42,7 @@ func allProps() []*PropSpec {
 		propC03(),
 		propC04(),
 		propC01(),
+		propC16(),
 	}
 }
 
@@ -354,6 +355,37 @@ func propC01() *PropSpec {
 			js = append(js, jobsN("js", "VerifJSNested", pick([]int{0}, rng(0, 3)), "x=(C?X:Y) / (X&&Y) / (X||Y) / !(X??Y) with one operand of depth 1: grouping inside the rewrites")...)
 			js = append(js, Job{Pkg: "js", Fn: "VerifJSLitTwin", N: 0, ExpectFail: true, Desc: "vacuity twin (kernels)"})
 			js = append(js, Job{Pkg: "js", Fn: "VerifJSEvalTwin", N: 0, ExpectFail: true, Desc: "vacuity twin (evaluator)"})
+			return js
+		},
+	}
+}
+
+func propC16() *PropSpec {
+	return &PropSpec{
+		ID:   "C16",
+		Rule: "one case = one feasible path of a minifier with its option fields symbolic (KeepNumbers, KeepWhitespace, KeepCSS2, KeepDefaultAttrVals, KeepQuotes, KeepEndTags, KeepDocumentTags, KeepComments, Version) on the templates of the other properties plus option-specific templates; the kept construct must appear as in the input, version gates must hold, and the semantic oracle of the owning property must hold under every option value; non-trivial = completes with a distinct symbolic output",
+		Assumptions: []string{"templates and bounds of the harnesses named in the job list", "ECMAScript versions 5, 2015, 2016, 2019, 2020 and 0 (unspecified)"},
+		Outside:     []string{"the CLI flag -> option wiring in cmd/minify/main.go (reflective argp parser, os.Args): not encoded", "Precision 1..17 outside Number/Decimal (C08 covers prec there)", "KeepVarNames (see C02), template delimiters, KeepSpecialComments"},
+		Stubs:       []string{"as in C01/C03/C04/C06/C07"},
+		Jobs: func(tier string) []Job {
+			var js []Job
+			q := tier == "quick"
+			pick := func(a, b []int) []int {
+				if q {
+					return a
+				}
+				return b
+			}
+			js = append(js, jobsN("js", "VerifJSNullish", []int{0}, "14 nullish/optional-chaining/Math.pow patterns x 6 target versions: no ?. ?? ** below their version, same behaviour")...)
+			js = append(js, jobsN("js", "VerifJSVersion", pick([]int{1}, []int{1}), "x=E (depth 1) for targets ES5/2019/2020")...)
+			js = append(js, jobsN("html", "VerifHTMLKeepDefaults", []int{0}, "14 default-valued attributes x quoting x case x KeepDefaultAttrVals/KeepQuotes/KeepEndTags/KeepWhitespace/KeepDocumentTags")...)
+			js = append(js, jobsN("html", "VerifHTMLKeepTags", []int{0}, "KeepDocumentTags / KeepEndTags / KeepComments on document templates")...)
+			js = append(js, jobsN("html", "VerifHTMLAttrRaw", pick(rng(1, 2), rng(1, 3)), "KeepQuotes / KeepDefaultAttrVals symbolic in the attribute oracle of C03")...)
+			js = append(js, jobsN("html", "VerifHTMLTree", pick(rng(2, 3), rng(2, 4)), "KeepEndTags / KeepComments / KeepWhitespace symbolic in the tree oracle of C03")...)
+			js = append(js, jobsN("json", "VerifJSONValue", pick(rng(1, 4), rng(1, 5)), "KeepNumbers symbolic: lexemes byte-identical when set (oracle of C07)")...)
+			js = append(js, jobsN("xml", "VerifXMLMixed", pick(rng(1, 1), rng(1, 2)), "KeepWhitespace symbolic (oracle of C06)")...)
+			js = append(js, jobsN("css", "VerifCSSNumber", pick(rng(1, 3), rng(1, 4)), "KeepCSS2 symbolic: no exponent notation when set (oracle of C04)")...)
+			js = append(js, Job{Pkg: "html", Fn: "VerifHTMLTwin", N: 0, ExpectFail: true, Desc: "vacuity twin"})
 			return js
 		},
 	}
